@@ -25,7 +25,7 @@ RULE = ('plan = seeded prefix history (1-3 identities, random versions, '
         'contains a successful creating request and the probe is id-less or '
         'differs from the last prefix request in version or identity. '
         'Distinct = digest of (prefix results, probe).')
-PROBES = ['probe_idless', 'probe_version_switch', 'probe_identity_switch',
+PROBES = ['probe_after_response_size_limit_on_same_session', 'probe_idless', 'probe_version_switch', 'probe_identity_switch',
           'prefix_header_reject', 'prefix_failed_batch', 'restart_in_prefix']
 REAL_VS_STUB = {
     'real': ['KmipEngine', 'KmipSession._handle_message_loop/authenticate',
@@ -167,6 +167,10 @@ def generate(rng, tier, index):
                 ctx, weights={'create': 5, 'register': 3, 'keypair': 1,
                               'derive': 1, 'use': 1, 'life': 3, 'read': 2,
                               'attr': 2, 'misc': 1})
+            if r.random() < 0.12:
+                # a per-request limit that this request's own (small)
+                # answer may well respect: it must not outlive the request
+                rq['maxresp'] = r.choice([160, 200, 256, 300, 400, 600])
             steps.append(rq)
             last = rq
     probe = gen_probe(ctx, r, last)
@@ -240,6 +244,9 @@ def execute(plan):
                      for op in probe['items'])
         vswitch = last is not None and list(probe['ver']) != list(last['ver'])
         iswitch = last is not None and probe['actor'] != last['actor']
+        if any(st.get('maxresp') and st.get('actor') == probe['actor']
+               for st in plan['steps'] if isinstance(st, dict)):
+            probes['probe_after_response_size_limit_on_same_session'] += 1
         probes['probe_idless'] += int(idless)
         probes['probe_version_switch'] += int(vswitch)
         probes['probe_identity_switch'] += int(iswitch)
